@@ -61,17 +61,27 @@ def run(ctx):
                               [2 ** 31 + 1, 2 ** 33 + 5, 7, 1],
                               [3000000001, 3000000002, 3000000003, 3000000006], [400000001, 400000003, 400000002]])
             ents = fstree.gen_tree(r, max_entries=r.choice([1, 2, 3, 8, 25]), kinds="fdl", sizes=sizes)
-            for e in ents:
+            for i, e in enumerate(ents):
                 if e["kind"] == "f" and e["size"] > 10 ** 6:
                     e["sparse"] = True
+                elif e["kind"] == "f" and i % 3 != 2:
+                    # real lines, so that line_count has distinct non-zero values
+                    e["content"] = (b"x\n" * (e["size"] // 2) + b"y" * (e["size"] % 2))[:e["size"]]
             snap = corr.Snap(scratch, ents, subdir="t%d" % t)
             for _ in range(per_tree):
                 col = r.choice(COLS if max(sizes) < 10 ** 6 else [c for c in COLS if c != "line_count"])
                 aggs = r.sample(AGGS, r.range(1, 4))
                 where = r.choice(["", " where is_file = true", " where size > 5", " where name like '%z%q%'",
                                   " where is_dir = true", " where size >= 1 and size <= 1025"])
+                # a column that is empty for some entries (line_count of a directory or link): every matching entry still
+                # counts; restricted to the aggregates whose meaning the property fixes for that case (COUNT, SUM, AVG = SUM/COUNT)
+                partial = False
+                if max(sizes) < 10 ** 6 and r.chance(1, 6):
+                    col = "line_count"
+                    where = r.choice(["", " where size > 5", " where is_dir = true", " where size >= 1 and size <= 1025"])
                 if col == "line_count" and "is_file" not in where:
-                    where = " where is_file = true"
+                    partial = True
+                    aggs = ["avg"] + r.sample(["count", "sum"], r.range(0, 2))
                 sel = ", ".join("%s(%s)" % (a, "*" if (a == "count" and r.chance(1, 2)) else col) for a in aggs)
                 q = "select %s from .%s into list" % (sel, where)
                 qrows = "select %s from .%s into list" % (col, where)
@@ -82,10 +92,15 @@ def run(ctx):
                 if impl["status"] != 0 or rr["status"] != 0:
                     ctx.oracle_fail("aggregate query failed", case, detail={"status": impl["status"]})
                     continue
+                cells = rr["out"].split(b"\0")[:-1]
                 try:
-                    xs = [int(v) for v in rr["out"].split(b"\0")[:-1]]
+                    xs = [int(v) for v in cells if not (partial and v == b"")]
                 except ValueError:
                     continue
+                nrows = len(cells)
+                if partial and nrows != len(xs):
+                    ctx.count("aggregates_over_partly_empty_column")
+
                 if len(xs) >= 2:
                     ctx.distinct.add((t, q, "nt"))
                 ctx.hist("matches", min(len(xs), 30) // 5 * 5 if len(xs) > 2 else len(xs))
@@ -96,6 +111,10 @@ def run(ctx):
                 for a, g in zip(aggs, got):
                     ctx.hist("agg", a)
                     w = expect(a, xs)
+                    if partial and a == "count":
+                        w = nrows                          # COUNT counts entries, with or without a value
+                    elif partial and a == "avg":
+                        w = Fraction(sum(xs), nrows) if nrows else 0
                     ok = (g == str(w)) if isinstance(w, int) else close(g, w)
                     if not ok:
                         ctx.oracle_fail("%s(%s) = %s, expected %s" % (a, col, g, float(w) if w is not None else "''"), case,
